@@ -200,10 +200,10 @@ def dump_files(case, note):
         if use_cli:
             r = cli.forked([path, '-t', 'mex'], script=os.path.join(os.path.dirname(d.__file__), 'dump.py'),
                            module_main=d.main)
-            out_lines = r.out.split('\n')
-            if out_lines and out_lines[-1] == '':
-                out_lines.pop()
-            if r.status != 0 or out_lines != want:
+            # compare the printed text as a whole: a decoded line may itself contain a line break (a buffer
+            # name field holding 0x0A), so splitting the output into lines would not give back the list
+            expected_text = ''.join(l + '\n' for l in want)
+            if r.status != 0 or r.out != expected_text:
                 raise Violation('C17.cli', 'python -m io_drawer.dump -t mex: %s; expected %d lines'
                                 % (r.brief(), len(want)), sig='C17.cli')
             note.label('cli')
